@@ -8,6 +8,7 @@ import s_sender
 import s_conc
 import s_dispatch
 import s_fault
+import s_appclose
 import s_real
 
 KERNEL = "Lean 4.33.0 kernel; axioms limited to propext, Classical.choice, Quot.sound (audited with #print axioms on every run)"
@@ -182,7 +183,7 @@ PROPS = {
     "C20": {
         "lean": ["AriVerif.Props.C20", "AriVerif.Props.SkelReader", "AriVerif.Props.SkelLifecycle", "AriVerif.Conc.MetaClose", "AriVerif.Conc.MetaFault", "AriVerif.Conc.DataClose", "AriVerif.Conc.DataFault"],
         "gen": ["Skeleton"],
-        "streams": [s_fault.stream, s_dispatch.stream, s_conc.meta_stream(["C20"], "meta-cosim-close"),
+        "streams": [s_fault.stream, s_appclose.stream, s_dispatch.stream, s_conc.meta_stream(["C20"], "meta-cosim-close"),
                     s_conc.data_stream(["C20"], "data-cosim-close", tails=True)],
         "trusted": [KERNEL, HARNESS, "the scheduler shim (harness/shim.py): Lock/RLock, Queue, Event, Thread, ThreadPoolExecutor, scripted socket with fault injection, virtual clock",
                     "os._exit is substituted by the shim (recorded, thread unwound); real process exit and real socket shutdown semantics are the OS's",
